@@ -24,7 +24,11 @@ number grammar, a superset of what `'g'` writes), in any context:
   the shortest text `AppendFloat` wrote back to the same float64 is the trusted round trip of the standard library.
 
 `NaN`, `+Inf`, `-Inf` (what `AppendFloat` writes for the non-finite values; the property is about finite floats)
-are not literals of the grammar: `nonfinite_texts` records what the parser makes of them. -/
+are not literals of the grammar.
+
+Integers at and beyond the limit of the integer fast loop (`nvInt`): `edge_run_pos`, `edge_run_neg` (the 17 int64
+values from ±9223372036854775800 on), `edge_run_posN` (every non-negative integer from 9223372036854775800 up to the
+uint64 range: a `json.Number` with the same digits; `fmtNat_snoc`, `step_fastBig`). -/
 set_option linter.unusedSimpArgs false
 set_option linter.unusedVariables false
 set_option linter.unusedSectionVars false
